@@ -851,16 +851,25 @@ fn aux_workload(args: &[String]) -> i32 {
     let reference: Option<BTreeMap<String, String>> = arg(args, "--ref").and_then(|p| std::fs::read_to_string(p).ok()).and_then(|s| serde_json::from_str::<Value>(&s).ok()).map(|v| {
         v["outputs"].as_object().map(|o| o.iter().map(|(k, v)| (k.clone(), v.as_str().unwrap_or("").to_string())).collect()).unwrap_or_default()
     });
+    let first_mode: usize = arg(args, "--first").and_then(|s| s.parse().ok()).unwrap_or(0);
     let items = Arc::new(work_items(seed));
     let barrier = Arc::new(Barrier::new(threads));
     // phase A: concurrent first touch; every thread returns its own Valid<Schema>
     let handles: Vec<_> = (0..threads)
-        .map(|_| {
+        .map(|t| {
             let barrier = barrier.clone();
             std::thread::Builder::new()
                 .stack_size(16 << 20)
                 .spawn(move || {
                     barrier.wait();
+                    if first_mode == 2 || (first_mode == 1 && t % 2 == 1) {
+                        // a legitimate first use: validation inserts the referenced built-in scalar
+                        // definitions that are missing from the type map
+                        if let Ok(mut odd) = Schema::parse("type Query { a: Int }", "first.graphql") {
+                            odd.types.retain(|n, _| !["Int", "Float", "String", "Boolean", "ID"].contains(&n.as_str()));
+                            let _ = odd.validate();
+                        }
+                    }
                     let s = Schema::parse_and_validate(SHARED_SDL, "schema.graphql").map_err(|e| e.errors.to_string());
                     let first = s.as_ref().ok().map(|s| (s.to_string(), introspect(s, "{ __schema { queryType { name } types { name } } __typename }")));
                     (s, first)
@@ -1290,7 +1299,10 @@ fn custom(cfg: &RunCfg) -> CustomReport {
                 // all processes at once: their threads compete for the cores
                 std::thread::spawn(move || {
                     std::thread::sleep(std::time::Duration::from_millis(if p % 2 == 1 { 30 } else { 0 }));
-                    child(&exe, &[s("--mode"), s("workload"), s("--seed"), s(seed), s("--threads"), s(16), s("--rounds"), s(rounds), s("--ref"), ref_path], 900)
+                    // what the threads of this process do first (0: build the shared schema; 1: odd threads,
+                    // 2: all threads first validate a schema whose built-in scalar definitions were removed by
+                    // hand): lazily initialised process-wide tables must not depend on who touches them first
+                    child(&exe, &[s("--mode"), s("workload"), s("--seed"), s(seed), s("--threads"), s(16), s("--rounds"), s(rounds), s("--first"), s(p % 3), s("--ref"), ref_path], 900)
                 })
             })
             .collect();
